@@ -54,18 +54,23 @@ def plan(tier):
 # ---------------------------------------------------------------------------
 # expression ASTs
 
-def gen_pred(rng, depth=0):
+def gen_pred(rng, depth=0, dates=None):
     r = rng.random()
     if depth < 2 and r < 0.3:
-        return [rng.choice(["&&", "||"]), gen_pred(rng, depth + 1), gen_pred(rng, depth + 1)]
+        return [rng.choice(["&&", "||"]), gen_pred(rng, depth + 1, dates), gen_pred(rng, depth + 1, dates)]
     if depth < 2 and r < 0.4:
-        return ["!", gen_pred(rng, depth + 1)]
+        return ["!", gen_pred(rng, depth + 1, dates)]
     f = rng.choice(FIELDS + ["build.date", "build.date"])
     if f in ("build.date",) and rng.random() < 0.8:
         # half of the literals are complete time stamps from the small pool the artifacts draw
         # from, so that the boundary case (field == literal) of <= and >= occurs
-        lit = ("2020-01-%02dT%02d:00:00" % (rng.randrange(1, 10), rng.choice([0, 12]))) if rng.random() < 0.5 \
-            else "2020-01-%02d" % rng.randrange(1, 11)
+        r = rng.random()
+        if dates and r < 0.45:
+            lit = rng.choice(dates)      # exactly the time stamp of one of the artifacts
+        elif r < 0.6:
+            lit = "2020-01-%02dT%02d:00:00" % (rng.randrange(1, 10), rng.choice([0, 12]))
+        else:
+            lit = "2020-01-%02d" % rng.randrange(1, 11)
         return [rng.choice(["<", "<=", ">", ">="]), ["f", f], ["s", lit]]
     if f == "meta.package":
         return [rng.choice(["==", "!=", "==", "<", ">=", "<=", ">"]), ["f", f], ["s", rng.choice(PKGS)]]
@@ -75,8 +80,8 @@ def gen_pred(rng, depth=0):
         return [rng.choice(["==", "!="]), ["f", f], ["s", rng.choice(["GPL", "MIT", "a", "b"])]]
     return [rng.choice(["==", "!="]), ["f", f], ["s", rng.choice(["x", "x86_64"])]]
 
-def gen_expr(rng):
-    e = {"pred": gen_pred(rng)}
+def gen_expr(rng, dates=None):
+    e = {"pred": gen_pred(rng, 0, dates)}
     if rng.random() < 0.55:
         e["limit"] = rng.choice([1, 1, 2, 3, 5])
         if rng.random() < 0.6:
@@ -249,6 +254,7 @@ def gen_case(rng, tier, index):
     arts = []
     for i in range(n):
         arts.append(gen_art(rng, i, [a["id"] for a in arts]))
+    dates = sorted({a["date"] for a in arts})
     ops = []
     present = set()
     scanned_clean = False
@@ -266,10 +272,10 @@ def gen_case(rng, tier, index):
         elif r < 0.5:
             ops.append(["scan"]); scanned_clean = True
         elif r < 0.72:
-            ops.append(["find", [gen_expr(rng) for _ in range(rng.choice([1, 1, 2]))], bool(scanned_clean and rng.random() < 0.5)])
+            ops.append(["find", [gen_expr(rng, dates) for _ in range(rng.choice([1, 1, 2]))], bool(scanned_clean and rng.random() < 0.5)])
         else:
             dry = rng.random() < 0.3
-            ops.append(["clean", [gen_expr(rng) for _ in range(rng.choice([1, 1, 2, 3]))], dry, bool(scanned_clean and rng.random() < 0.4)])
+            ops.append(["clean", [gen_expr(rng, dates) for _ in range(rng.choice([1, 1, 2, 3]))], dry, bool(scanned_clean and rng.random() < 0.4)])
             if not dry:
                 scanned_clean = False
     return {"arts": arts, "ops": ops}
